@@ -266,20 +266,50 @@ Proof.
   replace (wa - wa) with 0 in E by lia. exact E.
 Qed.
 
+(* the OR-accumulation may start from the value itself or from 0 and be merged afterwards: both are v | E *)
+Lemma fold_lor_acc (g : Z -> Z) (l : list Z) acc :
+  fold_left (fun a i => Z.lor a (g i)) l acc = Z.lor acc (fold_left (fun a i => Z.lor a (g i)) l 0).
+Proof.
+  revert acc. induction l as [|x l IH]; intros acc; cbn [fold_left]; [rewrite Z.lor_0_r; reflexivity|].
+  rewrite IH, (IH (Z.lor 0 (g x))). rewrite Z.lor_0_l, Z.lor_assoc. reflexivity.
+Qed.
+
+Lemma fill_loop hb wa n : 0 <= wa -> 0 <= hb <= 1 ->
+  fold_left (fun acc i => Z.lor acc (Z.shiftl hb i)) (map (fun k => wa + Z.of_nat k) (seq 0 n)) 0
+  = hb * (2 ^ (wa + Z.of_nat n) - 2 ^ wa).
+Proof.
+  intros Hwa Hhb. pose proof (pow2_pos wa Hwa).
+  change (fun acc i => Z.lor acc (Z.shiftl hb i)) with (fun acc i => Z.lor acc (py_shl hb i)).
+  rewrite sext_loop by lia. lia.
+Qed.
+
+(* Accepted shapes of SignExtend.propagate: accumulator starting at the value or at 0 and merged with `|` afterwards in
+   either operand order; top bit written `a >> (wa-1)` with or without `& 1` / `% 2`; masks in any spelling. *)
 Lemma SignExtend_eq wa wr a : 1 <= wa -> 0 <= wr -> 0 <= a < 2 ^ wa ->
   SignExtend_propagate wa wr a = umod wr (sgn wa a).
 Proof.
   intros Hwa Hwr Ha. unfold SignExtend_propagate. cbv zeta. rewrite Wire_put_umod by lia.
-  unfold seqZ.
-  assert (Hhb : py_shr a (wa - 1) = if a <? 2 ^ (wa - 1) then 0 else 1).
-  { unfold py_shr. rewrite shiftr_div by lia.
-    pose proof (div_pow2_bound a wa (wa - 1) ltac:(lia) Ha) as Hb. replace (wa - (wa - 1)) with 1 in Hb by lia.
+  unfold py_shr, py_shl, seqZ. rewrite ?land_1, ?land_1'. rewrite !shiftr_div by lia.
+  assert (Hhb : a / 2 ^ (wa - 1) = if a <? 2 ^ (wa - 1) then 0 else 1).
+  { pose proof (div_pow2_bound a wa (wa - 1) ltac:(lia) Ha) as Hb. replace (wa - (wa - 1)) with 1 in Hb by lia.
     change (2 ^ 1) with 2 in Hb. pose proof (pow2_pos (wa - 1) ltac:(lia)).
     destruct (Z.ltb_spec a (2 ^ (wa - 1))).
     - apply Z.div_small; lia.
     - assert (1 <= a / 2 ^ (wa - 1)); [|lia]. apply Z.div_le_lower_bound; lia. }
-  rewrite sext_loop; try lia.
-  2:{ rewrite Hhb. destruct (a <? 2 ^ (wa - 1)); lia. }
+  assert (Hhb01 : 0 <= a / 2 ^ (wa - 1) <= 1) by (rewrite Hhb; destruct (a <? 2 ^ (wa - 1)); lia).
+  rewrite ?(Z.mod_small (a / 2 ^ (wa - 1)) 2) by lia.
+  set (hb := a / 2 ^ (wa - 1)) in *.
+  (* bring the accumulation to  a | (fold from 0) *)
+  try rewrite (fold_lor_acc (fun i => Z.shiftl hb i) _ a).
+  try match goal with |- context [Z.lor (fold_left ?f ?l 0) a] => rewrite (Z.lor_comm (fold_left f l 0) a) end.
+  rewrite fill_loop by lia.
+  set (N := Z.of_nat (Z.to_nat (wr - wa))).
+  assert (Hlor : Z.lor a (hb * (2 ^ (wa + N) - 2 ^ wa)) = a + hb * (2 ^ (wa + N) - 2 ^ wa)).
+  { assert (HN : 0 <= N) by (subst N; lia). pose proof (pow2_pos N HN).
+    replace (hb * (2 ^ (wa + N) - 2 ^ wa)) with (Z.shiftl (hb * (2 ^ N - 1)) wa)
+      by (rewrite Z.shiftl_mul_pow2 by lia; rewrite Z.pow_add_r by lia; ring).
+    rewrite Z.lor_comm, lor_add_disjoint by lia. rewrite Z.shiftl_mul_pow2 by lia. ring. }
+  rewrite Hlor. subst N. subst hb.
   rewrite Hhb, sgn_eq.
   destruct (Z.le_gt_cases wa wr) as [Hle|Hgt].
   - replace (wa + Z.of_nat (Z.to_nat (wr - wa))) with wr by lia.
